@@ -5,7 +5,7 @@ use crate::util::Rng;
 
 const IDENTS: &[&str] = &[
     "x", "y", "z", "foo", "bar", "baz", "self", "data", "items", "n", "i", "value", "é", "名前",
-    "a1", "b_2", "result", "os", "sys", "path",
+    "a1", "b_2", "result", "os", "sys", "path", "match", "print", "type",
 ];
 const STRINGS: &[&str] = &[
     "\"\"", "\"a\"", "'b c'", "\"héllo\"", "\"日本\"", "\"a/b/c.py\"", "\"x{}y\"", "\"😀\"",
@@ -188,6 +188,11 @@ pub const CORPUS: &[&str] = &[
     "a = 1\nb = 2\nc = 3\nd = 4\ne = 5\nf = 6\ng = 7\nh = 8\n",
     "x = (1,\n     2,\n     3)\ny = {\n  'k': v,\n}\n",
     "f(x)(y)(z)\n",
+    // nodes whose kind is an alias in the grammar (soft keywords as identifiers, `as` targets,
+    // bodies of one-line compound statements)
+    "match = 1\nprint = match\nwith open(f) as g: pass\nif g: pass\ntype = print(match)\n",
+    "with a as b, c as d:\n    match = b\nwhile x: x = x - 1\n",
+    "a + b + c\nx.y.z(1)\nf()()\n",
 ];
 
 /// Generate an error-free Python source with 0..max_stmts top-level statements.
